@@ -61,6 +61,12 @@ def run(ctx, variants=(("verif", "c04"), ("verif,unsafe", "c04u"))):
     orc, olog = ctx.oracle_build("oracle_c04")
     if orc is None:
         broken.append({"kind": "obligation", "name": "oracle_c04 could not be built", "detail": olog[-1500:]})
+    # struct tags that say `compact` below the message's first flexible version: no effect on the wire (the codec never reads the
+    # option: compactness follows the message's flexibility, see enc/dec of those versions against the golden table) — listed
+    if orc is not None:
+        lint, _e = codec.oracle_lines(ctx, orc, ["lint compact => -"])
+        if lint and lint[0].startswith("model="):
+            ctx.coverage["compact_tag_below_flexible_version (dead metadata, no wire effect)"] = [x for x in lint[0][6:lint[0].rindex(" holds=")].split(",") if x]
     orcleg, oleglog = ctx.oracle_build("oracle_c04leg") if resl["ok"] else (None, "Gen/Legacy.lean does not build")
     if orcleg is None and resl["ok"]:
         broken.append({"kind": "obligation", "name": "oracle_c04leg (needs Gen/Legacy.lean) could not be built", "detail": oleglog[-1500:]})
@@ -129,7 +135,9 @@ def run(ctx, variants=(("verif", "c04"), ("verif,unsafe", "c04u"))):
     concrete = [d for d in dis if d.get("kind") == "disagreement"]
     others = [d for d in dis if d not in concrete]
     recorded = 0
-    for d in concrete[:60]:
+    for d in concrete:
+        if recorded >= 60:          # (disagreements that match a known finding do not count against the cap)
+            break
         what = "model and implementation disagree" if d["model"] != d["impl"] else "implementation output is not the reference (golden schema / Kafka wire spec) encoding"
         op = d["op"]
         sig = "%s => %s" % (" ".join(op.split(" ")[:3]), "ref-mismatch" if d["model"] == d["impl"] else "model-mismatch")
